@@ -148,6 +148,43 @@ def generate(root):
                 if isinstance(n, ast.Call) and isinstance(n.func, ast.Attribute) and isinstance(n.func.value, ast.Attribute) and n.func.value.attr in shared_attrs and \
                         n.func.attr in ('append', 'extend', 'insert', 'update', 'setdefault', 'add', 'pop', 'popitem', 'clear', 'remove', 'discard', 'sort', 'reverse', '__setitem__'):
                     bad.append('%s: class-level %s mutated' % (fn, n.func.value.attr))
+            # an attribute of something that is not local to the function (a module-level object, an imported module) written
+            # from inside a function: process-wide state again (a "current parser" pointer, a settings object, ...)
+            for f in ast.walk(t):
+                if not isinstance(f, (ast.FunctionDef, ast.Lambda)):
+                    continue
+                a = f.args
+                local = {x.arg for x in a.args + a.kwonlyargs + getattr(a, 'posonlyargs', [])}
+                if a.vararg:
+                    local.add(a.vararg.arg)
+                if a.kwarg:
+                    local.add(a.kwarg.arg)
+                for n in ast.walk(f):
+                    if isinstance(n, (ast.Assign, ast.AnnAssign, ast.AugAssign, ast.For, ast.comprehension)):
+                        tg = n.targets if isinstance(n, ast.Assign) else [getattr(n, 'target', None)]
+                        for x in tg:
+                            for y in (ast.walk(x) if x is not None else []):
+                                if isinstance(y, ast.Name) and isinstance(y.ctx, ast.Store):
+                                    local.add(y.id)
+                    if isinstance(n, ast.With):
+                        for it in n.items:
+                            if it.optional_vars is not None:
+                                for y in ast.walk(it.optional_vars):
+                                    if isinstance(y, ast.Name):
+                                        local.add(y.id)
+                    if isinstance(n, ast.ExceptHandler) and n.name:
+                        local.add(n.name)
+                    if isinstance(n, ast.FunctionDef) and n is not f:
+                        local.add(n.name)
+                for n in ast.walk(f):
+                    tgs = n.targets if isinstance(n, ast.Assign) else ([n.target] if isinstance(n, ast.AugAssign) else [])
+                    for x in tgs:
+                        if isinstance(x, ast.Attribute):
+                            b = x
+                            while isinstance(b, ast.Attribute):
+                                b = b.value
+                            if isinstance(b, ast.Name) and b.id not in local and b.id not in ('self', 'cls'):
+                                bad.append('%s: attribute of the non-local object %s written in %s' % (fn, b.id, getattr(f, 'name', 'a lambda')))
             for fn_node in ast.walk(t):
                 if not isinstance(fn_node, (ast.FunctionDef, ast.Lambda)):
                     continue
